@@ -424,7 +424,7 @@ func (acl *ACL) AuthorizeConnection(conn *net.Conn, cmd []string, command intern
 		return nil
 	}
 
-	if len(append(readKeys, writeKeys...)) > 0 {
+	if len(readKeys)+len(writeKeys) > 0 {
 		// 7. Check if nokeys is true
 		if connection.User.NoKeys {
 			return errors.New("not authorised to access any keys")
